@@ -159,6 +159,8 @@ pub enum LineSpec {
     /// 1 .EQU(current address)+label, 2 label+.EQU(current address), 3 .EQU+.EQU with one value,
     /// 4 label+.EQU with another value (the only mode in which references become ambiguous)
     DefineTwice(u8, Option<String>, Option<String>),
+    /// the previous instruction line once more, directly behind it, with another comment
+    RepeatPrev(Option<String>),
 }
 
 #[derive(Clone, Debug)]
@@ -178,6 +180,7 @@ pub fn line_spec() -> impl Strategy<Value = LineSpec> {
         8 => (machine_instr(), comment_strategy()).prop_map(|(i, c)| LineSpec::Instr(i, c)),
         3 => (directive(), comment_strategy()).prop_map(|(i, c)| LineSpec::Instr(i, c)),
         1 => (0u8..5, comment_strategy(), comment_strategy()).prop_map(|(m, a, b)| LineSpec::DefineTwice(m, a, b)),
+        1 => comment_strategy().prop_map(LineSpec::RepeatPrev),
     ]
 }
 
@@ -392,6 +395,19 @@ pub fn build(spec: &Spec, o: &GenOpts) -> (Asm, Shape) {
                 }
                 None => lines.push(Line::Empty(c1.clone())),
             },
+            LineSpec::RepeatPrev(cm) => {
+                let prev = match lines.last() {
+                    Some(Line::Instruction(i, _)) if !matches!(i, Instruction::AsmOrigin(_) | Instruction::AsmEquals(..)) => Some(i.clone()),
+                    _ => None,
+                };
+                match prev {
+                    Some(i) if addr + refasm::length(&i) <= o.max_image => {
+                        addr += refasm::length(&i);
+                        lines.push(Line::Instruction(i, cm.clone()));
+                    }
+                    _ => lines.push(Line::Empty(cm.clone())),
+                }
+            }
             LineSpec::Org(d, back, cm) => {
                 let target = if o.org_backward && *back { (*d as usize) % (addr + 1) } else { addr + *d as usize };
                 if target <= 255 && target <= o.max_image.min(255) {
